@@ -1,10 +1,11 @@
 #!/bin/sh
 # For every kept seeded change: run its property's quick check against a scratch worktree with the patch applied.
+# (meta.json may name another check in "check" when the change lies in that check's territory.)
 # Prints one line per seed: DETECTED / MISSED / BROKEN.
 cd "$(dirname "$0")" || exit 2
 for d in seeded/*/; do
   id=$(basename "$d")
-  prop=$(/venv/bin/python -c "import json;print(json.load(open('$d/meta.json'))['property'])")
+  prop=$(/venv/bin/python -c "import json;m=json.load(open('$d/meta.json'));print(m.get('check') or m['property'])")
   out=$(./seedtest.sh "$(pwd)/$d/patch.diff" "$prop" 2>&1)
   if echo "$out" | grep -q '^VIOLATION'; then v=DETECTED; elif echo "$out" | grep -q BROKEN; then v=BROKEN; else v=MISSED; fi
   echo "$id $prop $v"
